@@ -35,10 +35,28 @@ def shards(tier):
         out.append({"pair": ["bool", "bool"], "lmax": 5, "lmin": 5, "few": 1})
     for d1 in VALS:
         out.append({"single": d1, "lmax": 4 if tier == "quick" else 6})
+    out.append({"medium": 1})
     return out
 
 
 def cases(shard, tier):
+    if "medium" in shard:
+        # 40-element operands with unrelated run boundaries (size / threshold effects)
+        t1 = [0] * 9 + [1] * 1 + [2] * 14 + [0, 1, 0, 1] + [2] * 12
+        t2 = [(i * 7 // 5) % 3 for i in range(40)]
+        for d1 in ("int64", "int8", "float64"):
+            for d2 in ("int64", "uint8", "float64"):
+                for u in BINARY:
+                    yield ["bin", d1, t1, d2, t2, u]
+                    yield ["bin", d1, t2, d2, t1, u]
+            for u in UNARY:
+                yield ["un", d1, t1, u]
+            for s in SCALARS:
+                for u in ("subtract", "less", "multiply"):
+                    yield ["sc", d1, t2, s, u, "L"]
+            for name in ("sum", "any", "all", "max", "mean"):
+                yield ["red", d1, t2, name]
+        return
     if "pair" in shard:
         d1, d2 = shard["pair"]
         ufs = BINARY if not shard.get("few") else ["add", "maximum", "equal", "subtract", "logical_and"]
@@ -71,7 +89,7 @@ def cases(shard, tier):
 
 
 def _arr(dt, t):
-    return np.array([VALS[dt][i] for i in t], dtype=dt)
+    return np.array([VALS[dt][i % len(VALS[dt])] for i in t], dtype=dt)
 
 
 def _bounds(t):
